@@ -48,6 +48,39 @@ def stress_api(variant):
     return api, opts
 
 
+# handwritten sample configuration (option samples=<relative path>): two samples whose ids collide (the generator disambiguates
+# them with a hash of the spec) and one without id or region tag (the generator invents one) - nothing of it may depend on
+# where the file lives
+SAMPLE_CONFIG = """\
+---
+type: com.google.api.codegen.samplegen.v1p2.SampleConfigProto
+schema_version: 1.2.0
+samples:
+- id: library_get_book
+  region_tag: library_get_book_by_name
+  description: Fetch one book
+  rpc: GetBook
+  service: acme.lib.v1.Library
+  request:
+  - field: name
+    value: shelves/1/books/2
+- region_tag: library_get_book
+  description: Fetch another book
+  rpc: GetBook
+  service: acme.lib.v1.Library
+  request:
+  - field: name
+    value: shelves/3/books/4
+- description: List the books of a shelf
+  rpc: ListBooks
+  service: acme.lib.v1.Library
+  region_tag: ""
+  request:
+  - field: parent
+    value: shelves/5
+"""
+
+
 def orders_of(events):
     """hook events -> {site: order} with elements numbered by sorted position (pure renumbering)."""
     out = {}
@@ -152,14 +185,22 @@ def main(chk, args):
     fcases = featrun.get_cases(chk, True, chk.seed, n_pairs_quick=0, n_sim_quick=4 if quick else 40)
     fcases = [c for c in fcases if len(c['features']) > 3]
     inputs = [('stress%d' % v,) + stress_api(v) for v in range(2 if quick else 6)]
+    inputs.append(('samples-config',) + stress_api(0))
     inputs += [(featrun.key_of(c),) + features.build(c['features']) for c in fcases]
     traces = []
     with gen.scratch() as work:
-        cwd2 = os.path.join(work, 'elsewhere'); os.makedirs(cwd2)
+        cwd1 = os.path.join(work, 'here'); cwd2 = os.path.join(work, 'deeper', 'elsewhere')
+        for d in (cwd1, cwd2):
+            os.makedirs(os.path.join(d, 'cfg'))
+            with open(os.path.join(d, 'cfg', 'samples.yaml'), 'w') as f:
+                f.write(SAMPLE_CONFIG)
         for name, api, opts in inputs:
-            creq = absapi.build_request(api, gen.option_string(opts, work, api))
+            ostr = gen.option_string(opts, work, api)
+            if name == 'samples-config':
+                ostr += ',samples=cfg/samples.yaml'        # relative: resolved against the working directory of each process
+            creq = absapi.build_request(api, ostr)
             b = creq.SerializeToString()
-            jobs = [(b, s, None if i % 2 == 0 else cwd2) for i, s in enumerate(seeds)]
+            jobs = [(b, s, cwd1 if i % 2 == 0 else cwd2) for i, s in enumerate(seeds)]
             # purity: the same request generated in a process that generated other requests (same names, other content) or
             # the same request before
             wdir = os.path.join(work, 'warm-' + hashlib.sha1(name.encode()).hexdigest()[:8]); os.makedirs(wdir)
